@@ -400,6 +400,12 @@ class Component(Spatialable):
 
     model_config = ConfigDict(arbitrary_types_allowed=True)
 
+    _calculated_costs: frozenset[str] = PrivateAttr(default=frozenset())
+    """
+    Which of "area", "energy", "throughput", and "leak" have been calculated for this
+    component by ``Spec.calculate_component_costs``. DO NOT SET THIS VALUE.
+    """
+
     def _update_actions(self, new_actions: EvalableList[Action]):
         has_actions = oset(x.name for x in self.actions)
         for action in new_actions:
